@@ -215,7 +215,8 @@ func (d *DagRecord) downwardClosed(r *RNG, base []*DagEvent) map[string]bool {
 type eventFacts struct {
 	round, lamport, rr int
 	witness            bool
-	fame               int // 0 undecided
+	fame               int  // 0 undecided
+	riKnown            bool // the round's RoundInfo was available (it is cache-only)
 }
 
 func (in *instance) facts(hash string) (eventFacts, bool) {
@@ -232,9 +233,10 @@ func (in *instance) facts(hash string) (eventFacts, bool) {
 	}
 	if f.round >= 0 {
 		if ri, err := in.h.Store.GetRound(f.round); err == nil {
-			_, w, fame := ri.SimFame(hash)
+			known, w, fame := ri.SimFame(hash)
 			f.witness = w
 			f.fame = fame
+			f.riKnown = known
 		}
 	}
 	return f, true
@@ -267,6 +269,12 @@ func (c *Cluster) compareInstances(ref, v *instance, whole bool) {
 		if fv.round >= 0 && fr.round >= 0 && fv.round != fr.round {
 			c.violate("C03", "round", "round-differs", "variant %s: event %s has round %d, reference %d", v.name, short(h), fv.round, fr.round)
 			return
+		}
+		if !fv.riKnown || !fr.riKnown {
+			// round information evicted from the (cache-only) round store: rounds and
+			// Lamport timestamps are still comparable, witness flag and fame are not
+			fv.fame, fr.fame = 0, 0
+			fv.witness = fr.witness
 		}
 		if fv.round >= 0 && fr.round >= 0 && fv.witness != fr.witness {
 			c.violate("C03", "witness", "witness-flag-differs", "variant %s: event %s witness=%v, reference %v", v.name, short(h), fv.witness, fr.witness)
@@ -384,9 +392,12 @@ func (c *Cluster) dagReplay(variants int) {
 	c.stats.probeMax("dagreplay-events-max", len(base))
 	c.encodingChecksFinal(ref)
 	for vi := 0; vi < variants; vi++ {
-		kind := []string{"order", "order", "subdag", "store", "cache", "batch", "delay", "delay"}[r.Intn(8)]
+		kind := []string{"order", "order", "subdag", "store", "cache", "batch", "delay", "delay", "smallbadger", "smallbadger"}[r.Intn(10)]
 		if c.synthetic && r.Bool(0.5) {
 			kind = "delay"
+			if c.cfg.Profile != "C01" && r.Bool(0.5) {
+				kind = "smallbadger"
+			}
 		}
 		if c.cfg.Profile == "C01" && (kind == "batch" || kind == "subdag") {
 			// nodes always run a consensus pass per inserted event; batching is C03's subject
@@ -407,6 +418,11 @@ func (c *Cluster) dagReplay(variants int) {
 			if r.Bool(0.5) {
 				cache = maxInt(4*window+20*len(c.genesisSet)+50, 200)
 			}
+		case "smallbadger":
+			// a persistent store whose cache is just above the in-flight window:
+			// most of the history is re-read from the database
+			storeKind = "badger"
+			cache = maxInt(window+10*len(c.genesisSet)+10, 30) + r.Intn(30)
 		case "cache":
 			// from the in-flight window up to the default
 			cache = maxInt(4*window+20*len(c.genesisSet)+50, 200) + r.Intn(500)
@@ -418,7 +434,7 @@ func (c *Cluster) dagReplay(variants int) {
 			}
 		}
 		order := c.dag.randomTopo(r, base, subset)
-		if kind == "delay" {
+		if kind == "delay" || (kind == "smallbadger" && r.Bool(0.6)) {
 			order = c.dag.delayedOrder(r, base)
 		}
 		c.stats.fault("insertion-order-variant")
